@@ -1384,7 +1384,8 @@ Proof.
   pose proof (li_bf _ _ _ _ LL) as HBFL. pose proof (nodes_eq_nd _ _ Hn) as Hnd.
   pose proof (proj1 (li_heap _ _ _ _ LL)) as IL.
   assert (Hkpos : 1 <= stabNum s) by (pose proof (stamps_node_true _ _ (vi_stamps _ V 0%nat)); lia).
-  assert (HstL : forall n, 0 <= changedAt (nd sL n) <= recomputedAt (nd sL n) /\ recomputedAt (nd sL n) <= stabNum s).
+  assert (HstL : forall n, 0 <= changedAt (nd sL n) <= stabNum s /\ 0 <= recomputedAt (nd sL n) <= stabNum s /\
+                           (changedAt (nd sL n) = stabNum s -> recomputedAt (nd sL n) = stabNum s)).
   { intros n. rewrite <- Hk. apply stamps_node_false, (li_stamps _ _ _ _ LL). }
   assert (Hstale : forall n, isStale s' n = isStale sL n) by (intros n; apply isStale_nodes, Hn).
   assert (HBF' : BF s').
@@ -1514,21 +1515,412 @@ Proof.
   destruct e; try discriminate H. destruct n as [|[|[|[|[|n]]]]]; try discriminate H. reflexivity.
 Qed.
 
+Lemma pass_start_facts s : wfb s = true -> ValInv s ->
+  let s1 := EngineLocal.passStart s in
+  Struct s1 /\ LInv (Heap.ids (heap s)) (EvPassStart :: log s) s1 None /\ AlwaysOK s1 [].
+Proof.
+  intros Hwf V s1. pose proof (wfb_Struct s Hwf (vi_bf _ V)) as HS.
+  split; [destruct HS; constructor; assumption|]. split; [exact (LInv_start s Hwf V)|].
+  split; [|intros x Hx; inv Hx]. intros x _ Hd. exfalso.
+  pose proof (stamps_node_true _ _ (vi_stamps _ V x)). unfold isDone in Hd. apply Z.eqb_eq in Hd.
+  change (recomputedAt (nd s x) = stabNum s) in Hd. lia.
+Qed.
+
+
+(** ** a node function that panics (this is what needs the weakened stamp clause of [ValInv]) *)
+
+Definition panicPlan (x : nid) : plan := [(x, WFn, AFail FPanic)].
+
+Lemma panicPlan_actions x m w :
+  actions_of (panicPlan x) m w = if (x =? m)%nat && which_eqb w WFn then [AFail FPanic] else [].
+Proof. unfold panicPlan, actions_of. simpl. destruct ((x =? m)%nat && which_eqb w WFn); reflexivity. Qed.
+
+Lemma rns_panicPlan_other fuel x s m :
+  isBindKind (nkind (nd s m)) = false -> (m <> x \/ mapKind (nkind (nd s m)) = false) ->
+  recomputeNodeSerial fuel (panicPlan x) s m = recomputeNodeSerial fuel [] s m.
+Proof.
+  intros Hb Hx. rewrite !recomputeNodeSerial_unfold. cbv zeta.
+  set (s0 := upd s m (set recomputedAt (fun _ => stabNum s))).
+  assert (Hmc : maybeCutoff (panicPlan x) s0 m (nd s m) = maybeCutoff [] s0 m (nd s m)).
+  { unfold maybeCutoff. destruct (nkind (nd s m)); try reflexivity.
+    rewrite (invoke_eq (panicPlan x) [] s0 m WCut); [reflexivity|].
+    rewrite panicPlan_actions. simpl. rewrite andb_false_r. reflexivity. }
+  rewrite Hmc. destruct (maybeCutoff [] s0 m (nd s m)) as [[[s1 e1] cut]| |] eqn:E1; simpl; try reflexivity.
+  destruct e1; [reflexivity|]. destruct cut; [reflexivity|].
+  assert (Hk1 : nkind (nd s1 m) = nkind (nd s m)).
+  { apply maybeCutoff_spec in E1 as (V1 & _). destruct (vps_fields _ _ (V1 m)) as (-> & _).
+    apply (nd_upd_proj nkind). reflexivity. }
+  assert (Hsn : stabilizeNode fuel (panicPlan x) s1 m = stabilizeNode fuel [] s1 m).
+  { unfold stabilizeNode. rewrite Hk1.
+    assert (Hinv : mapKind (nkind (nd s m)) = true -> invoke (panicPlan x) s1 m WFn = invoke [] s1 m WFn).
+    { intros Hmk. apply invoke_eq. rewrite panicPlan_actions. destruct Hx as [Hx|Hx]; [|congruence].
+      destruct (Nat.eqb_spec x m); [congruence|reflexivity]. }
+    destruct (nkind (nd s m)); try reflexivity; try discriminate Hb; rewrite Hinv by reflexivity; reflexivity. }
+  rewrite Hsn. reflexivity.
+Qed.
+
+(** the panicking recompute unwinds at once: only the stamp of this pass and the fault event *)
+Lemma rns_panicPlan_fail fuel x s s' e imm :
+  has s x -> mapKind (nkind (nd s x)) = true ->
+  recomputeNodeSerial fuel (panicPlan x) s x = Ok (s', e, imm) ->
+  e = Some (EPanic x) /\ imm = None /\
+  s' = emit (EvFault x WFn FPanic) (upd s x (set recomputedAt (fun _ => stabNum s))).
+Proof.
+  intros Hx Hmk H. rewrite recomputeNodeSerial_unfold in H. cbv zeta in H.
+  set (s0 := upd s x (set recomputedAt (fun _ => stabNum s))) in *.
+  assert (Hk0 : nkind (nd s0 x) = nkind (nd s x)) by (apply (nd_upd_proj nkind); reflexivity).
+  assert (Hmc : maybeCutoff (panicPlan x) s0 x (nd s x) = Ok (s0, None, false)).
+  { unfold maybeCutoff. destruct (nkind (nd s x)); try reflexivity; discriminate Hmk. }
+  rewrite Hmc in H. simpl in H.
+  assert (Hinv : invoke (panicPlan x) s0 x WFn = Ok (emit (EvFault x WFn FPanic) s0, Some (EPanic x))).
+  { unfold invoke. rewrite panicPlan_actions, Nat.eqb_refl. reflexivity. }
+  assert (Hsn : stabilizeNode fuel (panicPlan x) s0 x = Ok (emit (EvFault x WFn FPanic) s0, Some (EPanic x))).
+  { unfold stabilizeNode. rewrite Hk0. destruct (nkind (nd s x)); try discriminate Hmk; rewrite Hinv; reflexivity. }
+  rewrite Hsn in H. simpl in H. injection H as <- <- <-. auto.
+Qed.
+
+(** how the loop ends when [x] panics: [sG] is the state just before the panicking recompute *)
+Definition panicked (h0 : list nid) (base : list event) (x : nid) (s : state) (always : list nid)
+           (sG s' : state) : Prop :=
+  Struct sG /\ LInv h0 base sG (Some x) /\ mapKind (nkind (nd sG x)) = true /\ sframe s sG /\
+  AlwaysOK sG always /\ (forall y, isDone sG y = false -> nd sG y = nd s y /\ isDone s y = false) /\
+  (cursor_ok (heap s) -> cursor_ok (heap sG)) /\
+  s' = emit (EvFault x WFn FPanic) (upd sG x (set recomputedAt (fun _ => stabNum sG))).
+
+Lemma chain_panic h0 base x fuel : forall s n s' e at_,
+  Struct s -> LInv h0 base s (Some n) ->
+  recomputeChain fuel (panicPlan x) s n = Ok (s', e, at_) ->
+  (e = None /\ LInv h0 base s' None /\ chainPost s n s') \/
+  (e = Some (EPanic x) /\ at_ = x /\ exists sG,
+     Struct sG /\ LInv h0 base sG (Some x) /\ mapKind (nkind (nd sG x)) = true /\
+     (sG = s \/ chainPost s n sG) /\
+     s' = emit (EvFault x WFn FPanic) (upd sG x (set recomputedAt (fun _ => stabNum sG)))).
+Proof.
+  induction fuel as [|fuel IH]; intros s n s' e at_ HS L H; [discriminate|].
+  cbn [recomputeChain] in H.
+  destruct (recomputeNodeSerial fuel (panicPlan x) s n) as [[[s1 e1] imm]| |] eqn:E1; simpl in H; try discriminate.
+  destruct (decide (n = x /\ mapKind (nkind (nd s n)) = true)) as [[-> Hmk]|Hno].
+  - assert (Hg : inGraph (nd s x) = true).
+    { apply (li_orig _ _ _ _ L x). left. apply inW_iff; [apply (li_heap _ _ _ _ L)|]. right; reflexivity. }
+    destruct (rns_panicPlan_fail fuel x s s1 e1 imm (has_inGraph _ _ Hg) Hmk E1) as (-> & -> & ->).
+    injection H as <- <- <-. right. split; [reflexivity|]. split; [reflexivity|]. exists s. auto 10.
+  - rewrite rns_panicPlan_other in E1.
+    2:{ apply (bf_kind s (li_bf _ _ _ _ L)). }
+    2:{ destruct (decide (n = x)) as [->|]; [right|left; assumption].
+        destruct (mapKind (nkind (nd s x))); [exfalso; apply Hno; auto|reflexivity]. }
+    assert (Hg : inGraph (nd s n) = true).
+    { apply (li_orig _ _ _ _ L n). left. apply inW_iff; [apply (li_heap _ _ _ _ L)|]. right; reflexivity. }
+    destruct (rns_step fuel s n s1 e1 imm (li_bf _ _ _ _ L) (has_inGraph _ _ Hg) (proj1 (li_heap _ _ _ _ L)) E1)
+      as [-> P].
+    pose proof (step_LInv h0 base s n s1 imm HS L P) as L1.
+    pose proof (stepPost_sframe _ _ _ _ P) as F1.
+    assert (Hd1 : forall y, isDone s1 y = true -> isDone s y = true \/ y = n).
+    { intros y. apply (PassProofs.done'_iff s n s1 imm P). }
+    assert (Hu1 : forall y, isDone s1 y = false -> nd s1 y = nd s y /\ isDone s y = false).
+    { intros y Hy. apply (PassProofs.done'_false s n s1 imm P) in Hy as [Hy Hne]. split; [apply (sp_other _ _ _ _ P y Hne)|exact Hy]. }
+    assert (CP1 : chainPost s n s1).
+    { split; [exact F1|]. split; [intros y Hy; destruct (Hd1 y Hy); auto|]. split; [exact Hu1|exact (sp_cur _ _ _ _ P)]. }
+    assert (Hcomp : forall c s2, imm = Some c -> chainPost s1 c s2 -> chainPost s n s2).
+    { intros c s2 -> (F' & Hd' & Hu' & Hc'). split; [eapply sframe_trans; eauto|]. split; [|split].
+      - intros y Hy. destruct (Hd' y Hy) as [Hy1|[->|Hna]].
+        + destruct (Hd1 y Hy1); auto.
+        + right. right. rewrite <- (sf_nkind _ _ F1).
+          destruct (sp_case _ _ _ _ P) as [C|R]; [pose proof (cp_imm _ _ _ _ C); discriminate|].
+          destruct (rp_imm _ _ _ _ R c eq_refl) as [_ Hcan]. unfold canRecomputeImmediately in Hcan.
+          destruct (isAlways (nkind (nd s1 c))); [discriminate|reflexivity].
+        + right. right. rewrite <- (sf_nkind _ _ F1). exact Hna.
+      - intros y Hy. destruct (Hu' y Hy) as [A1 Hy1]. destruct (Hu1 y Hy1) as [A2 Hy0]. split; congruence.
+      - intros C. apply Hc', (sp_cur _ _ _ _ P), C. }
+    destruct imm as [c|].
+    + destruct (IH s1 c s' e at_ (sf_Struct _ _ F1 HS) L1 H) as [(-> & L' & CP')|(-> & -> & sG & HSG & LG & Hmk & Hrel & Es')].
+      * left. split; [reflexivity|]. split; [exact L'|]. exact (Hcomp c s' eq_refl CP').
+      * right. split; [reflexivity|]. split; [reflexivity|]. exists sG. split; [exact HSG|]. split; [exact LG|].
+        split; [exact Hmk|]. split; [|exact Es']. right.
+        destruct Hrel as [->|CPG]; [exact CP1|exact (Hcomp c sG eq_refl CPG)].
+    + injection H as <- <- <-. left. auto.
+Qed.
+
+Lemma loop_panic h0 base x fuel : forall s always s' e at_ always',
+  Struct s -> LInv h0 base s None -> AlwaysOK s always ->
+  passLoop fuel (panicPlan x) s always = Ok (s', e, at_, always') ->
+  (e = None /\ LInv h0 base s' None /\ sframe s s' /\ AlwaysOK s' always' /\
+   (forall y, isDone s' y = false -> nd s' y = nd s y /\ isDone s y = false) /\
+   (cursor_ok (heap s) -> cursor_ok (heap s')) /\ Heap.ids (heap s') = []) \/
+  (e = Some (EPanic x) /\ at_ = x /\ exists sG, panicked h0 base x s always' sG s').
+Proof.
+  induction fuel as [|fuel IH]; intros s always s' e at_ always' HS L HA H; [discriminate|].
+  cbn [passLoop] in H. pose proof (proj1 (li_heap _ _ _ _ L)) as I.
+  destruct (Z.leb_spec (Heap.cnt (heap s)) 0) as [Hc|Hc].
+  { injection H as <- <- <- <-. left. split; [reflexivity|]. split; [exact L|]. split; [apply sframe_refl|].
+    split; [exact HA|]. split; [auto|]. split; [auto|]. apply cnt_zero_ids; assumption. }
+  destruct (Heap.removeMin (heap s)) as [[n w]|] eqn:Erm; [|discriminate].
+  set (s2 := s <| heap := w |>) in *.
+  set (always2 := if isAlways (nkind (nd s2 n)) then always ++ [n] else always) in *.
+  destruct (recomputeChain fuel (panicPlan x) s2 n) as [[[s3 e3] at3]| |] eqn:E3; simpl in H; try discriminate.
+  pose proof (pop_LInv h0 base s n w HS L Erm) as L2.
+  assert (F2 : sframe s s2) by apply sframe_set_heap.
+  pose proof (sf_Struct _ _ F2 HS) as HS2.
+  assert (Hng : inGraph (nd s n) = true).
+  { apply (li_orig _ _ _ _ L2 n). left. apply inW_iff; [apply (li_heap _ _ _ _ L2)|]. right; reflexivity. }
+  (* the list of popped Always nodes after a chain that started at [n] *)
+  assert (HAgen : forall sG, sframe s2 sG ->
+            (forall y, isDone sG y = true -> isDone s2 y = true \/ y = n \/ isAlways (nkind (nd s2 y)) = false) ->
+            AlwaysOK sG always2).
+  { intros sG F3 Hd3. destruct HA as [HA1 HA2]. split.
+    - intros y Hk Hd. rewrite (sf_nkind _ _ F3) in Hk. change (nd s2 y) with (nd s y) in Hk.
+      destruct (Hd3 y Hd) as [Hy|[->|Hy]].
+      + unfold always2. destruct (isAlways (nkind (nd s2 n))); [apply elem_of_app; left|]; apply HA1; assumption.
+      + unfold always2. change (nd s2 n) with (nd s n). rewrite Hk. apply elem_of_app. right. left.
+      + change (nd s2 y) with (nd s y) in Hy. congruence.
+    - intros y Hy. rewrite (sf_inGraph _ _ F3), (sf_nkind _ _ F3). change (nd s2 y) with (nd s y).
+      unfold always2 in Hy. change (nd s2 n) with (nd s n) in Hy.
+      destruct (isAlways (nkind (nd s n))) eqn:Ek; [|apply HA2, Hy].
+      apply elem_of_app in Hy as [Hy|Hy]; [apply HA2, Hy|]. apply elem_of_list_singleton in Hy as ->. auto. }
+  pose proof (cursor_removeMin _ _ _ I Erm) as Hcur2.
+  destruct (chain_panic h0 base x fuel s2 n s3 e3 at3 HS2 L2 E3)
+    as [(-> & L3 & (F3 & Hd3 & Hu3 & Hc3))|(-> & -> & sG & HSG & LG & Hmk & Hrel & Es3)].
+  - (* the chain completed *)
+    pose proof (HAgen s3 F3 Hd3) as HA3.
+    destruct (IH s3 always2 s' e at_ always' (sf_Struct _ _ F3 HS2) L3 HA3 H)
+      as [(-> & L' & F' & HA' & Hu' & Hc' & Hemp)|(-> & -> & sG & HSG & LG & Hmk & FG & HAG & HuG & HcG & Es')].
+    + left. split; [reflexivity|]. split; [exact L'|].
+      split; [eapply sframe_trans; [exact F2|]; eapply sframe_trans; eauto|]. split; [exact HA'|].
+      split; [|split; [intros _; apply Hc', Hc3, Hcur2|exact Hemp]].
+      intros y Hy. destruct (Hu' y Hy) as [A1 Hy1]. destruct (Hu3 y Hy1) as [A2 Hy0]. split; [rewrite A1, A2; reflexivity|exact Hy0].
+    + right. split; [reflexivity|]. split; [reflexivity|]. exists sG. split; [exact HSG|]. split; [exact LG|].
+      split; [exact Hmk|]. split; [eapply sframe_trans; [exact F2|]; eapply sframe_trans; eauto|].
+      split; [exact HAG|]. split; [|split; [intros _; apply HcG, Hc3, Hcur2|exact Es']].
+      intros y Hy. destruct (HuG y Hy) as [A1 Hy1]. destruct (Hu3 y Hy1) as [A2 Hy0]. split; [rewrite A1, A2; reflexivity|exact Hy0].
+  - (* the chain panicked *)
+    injection H as <- <- <- <-. right. split; [reflexivity|]. split; [reflexivity|]. exists sG.
+    split; [exact HSG|]. split; [exact LG|]. split; [exact Hmk|].
+    destruct Hrel as [->|(F3 & Hd3 & Hu3 & Hc3)].
+    + split; [exact F2|]. split; [apply (HAgen s2 (sframe_refl s2)); auto|]. split; [auto|]. split; [intros _; exact Hcur2|exact Es3].
+    + split; [eapply sframe_trans; eauto|]. split; [exact (HAgen sG F3 Hd3)|].
+      split; [exact Hu3|]. split; [intros _; apply Hc3, Hcur2|exact Es3].
+Qed.
+
+Lemma node_set_rec2 (y : node) a b : y <| recomputedAt := a |> <| recomputedAt := b |> = y <| recomputedAt := b |>.
+Proof. destruct y; reflexivity. Qed.
+
+(** resetting the stamp of a queued node that has a function keeps the quiescent invariant
+    (this is where the stamp clause must not demand [changedAt <= recomputedAt]) *)
+Lemma ValInv_reset s x s' :
+  ValInv s -> inHeap s x = true -> mapKind (nkind (nd s x)) = true ->
+  (forall n, n <> x -> nd s' n = nd s n) -> nd s' x = nd s x <| recomputedAt := 0 |> ->
+  (forall n, has s' n <-> has s n) -> heap s' = heap s -> binds s' = binds s -> next s' = next s ->
+  stabNum s' = stabNum s -> ValInv s'.
+Proof.
+  intros V Hqx Hmk Hne Hx Hhas Hh Hb Hnx Hk. pose proof (vi_bf _ V) as HBF.
+  assert (Hf : forall (A : Type) (g : node -> A) n, (forall y a, g (y <| recomputedAt := a |>) = g y) -> g (nd s' n) = g (nd s n)).
+  { intros A g n Hg. destruct (decide (n = x)) as [->|Hn]; [rewrite Hx; apply Hg|rewrite (Hne n Hn); reflexivity]. }
+  assert (Hq : forall n, inHeap s' n = inHeap s n) by (intros n; unfold inHeap; rewrite Hh; reflexivity).
+  assert (HBF' : BF s').
+  { apply (BF_static s s' HBF); try assumption; [| |lia].
+    - intros m. repeat split; apply Hf; reflexivity.
+    - intros m. left. apply Hf; reflexivity. }
+  assert (Hval : forall p, valueOf s' p = valueOf s p).
+  { intros p. apply PassProofs.valueOf_ext. intros n. repeat split; apply Hf; reflexivity. }
+  constructor.
+  - exact HBF'.
+  - intros n. pose proof (stamps_node_true _ _ (vi_stamps _ V n)) as Hs. apply stamps_node_true_intro; rewrite Hk.
+    + rewrite (Hf _ changedAt) by reflexivity. lia.
+    + destruct (decide (n = x)) as [->|Hn]; [rewrite Hx; simpl; lia|rewrite (Hne n Hn); lia].
+  - intros n. rewrite (Hf _ inGraph), (Hf _ changedAt) by reflexivity. intros Hg.
+    destruct (vi_unreg _ V n Hg) as [H1 H2]. split; [|exact H2].
+    destruct (decide (n = x)) as [->|Hn]; [rewrite Hx; reflexivity|rewrite (Hne n Hn); exact H1].
+  - intros n Hg Hs. rewrite Hq. destruct (decide (n = x)) as [->|Hn]; [exact Hqx|].
+    rewrite (Hf _ inGraph) in Hg by reflexivity. apply (vi_owed _ V n Hg). rewrite <- Hs. symmetry.
+    apply isStale_same; [apply Hne, Hn|exact Hk|]. intros p _. apply Hf; reflexivity.
+  - intros n Hg Hnq Hgd. rewrite Hq in Hnq. rewrite (Hf _ inGraph) in Hg by reflexivity.
+    assert (Hn : n <> x) by (intros ->; congruence).
+    assert (Hgd0 : guarded s None n = true).
+    { rewrite <- Hgd. unfold guarded. rewrite (Hne n Hn). apply forallb_ext. intros p _.
+      rewrite (Hf _ changedAt) by reflexivity. f_equal. f_equal. unfold volq, inW.
+      rewrite (Hf _ nkind), Hq, Hk by reflexivity. destruct (nkind (nd s p)) eqn:Kp; try reflexivity.
+      destruct (decide (p = x)) as [->|Hp]; [rewrite Kp in Hmk; discriminate|rewrite (Hne p Hp); reflexivity]. }
+    pose proof (vi_clean _ V n Hg Hnq Hgd0) as Hc.
+    rewrite node_consistent_val in Hc by (apply (bf_kind s HBF)).
+    rewrite node_consistent_val by (apply (bf_kind s' HBF')). rewrite (Hne n Hn).
+    rewrite (consistent_val_ext s s' n); [exact Hc|apply Hf; reflexivity|apply Hf; reflexivity|].
+    intros p _. apply Hval.
+Qed.
+
+Theorem pass_panic_retry s x s' e :
+  wfb s = true -> ValInv s -> stabilize (panicPlan x) false s = Ok (s', Some e) ->
+  e = EPanic x /\ wfb s' = true /\ ValInv s' /\ inHeap s' x = true /\
+  exists s'', stabilize [] false s' = Ok (s'', None) /\ consistent s'' = true /\
+              observers_agree s'' = true /\ wfb s'' = true /\ ValInv s''.
+Proof.
+  intros Hwf V H. destruct (wfb_transients _ Hwf) as (Hst & Hsd & Hsr & Hh).
+  pose proof (vi_bf _ V) as HBF. pose proof (wfb_Struct s Hwf HBF) as HS.
+  destruct (stabilize_decompose _ _ _ _ _ Hst H) as (sL & at_ & always & s2 & s3 & EL & ER & EP & EE).
+  unfold passResult in EL. cbv zeta in EL. simpl in EL.
+  destruct (pass_start_facts s Hwf V) as (HS1 & L1 & HA1).
+  set (s1 := EngineLocal.passStart s) in *.
+  destruct (loop_panic _ _ x _ s1 [] sL (Some e) at_ always HS1 L1 HA1 EL)
+    as [(? & _)|([= ->] & -> & sG & HSG & LG & Hmk & FG & HAG & HuG & HcG & EsL)]; [discriminate|].
+  pose proof (proj1 (li_heap _ _ _ _ LG)) as IG.
+  assert (Hgx : inGraph (nd sG x) = true).
+  { apply (li_orig _ _ _ _ LG x). left. apply inW_iff; [exact IG|]. right; reflexivity. }
+  assert (Hxh : has sG x) by (apply has_inGraph, Hgx).
+  assert (Hxq : x ∉ Heap.ids (heap sG)).
+  { intros Hq. exact (li_M _ _ _ _ LG x x eq_refl Hq (rtc_refl _ _)). }
+  assert (Hxa : x ∉ always).
+  { intros Hin. destruct (proj2 HAG x Hin) as [_ Hal]. destruct (nkind (nd sG x)); discriminate. }
+  (* node records at the end of the loop *)
+  assert (HndL : forall n, nd sL n = if decide (n = x) then nd sG x <| recomputedAt := stabNum sG |> else nd sG n).
+  { intros n. rewrite EsL, nd_emit. rewrite nd_upd by exact Hxh. destruct (decide (n = x)) as [->|]; reflexivity. }
+  assert (HheapL : heap sL = heap sG) by (rewrite EsL; reflexivity).
+  assert (HhL : forall n, height (nd sL n) = height (nd sG n)).
+  { intros n. rewrite HndL. destruct (decide (n = x)) as [->|]; reflexivity. }
+  destruct (requeue_spec always sL s2) as (OR & IR & MR & HinR & HcR); [| | |exact ER|].
+  { rewrite HheapL. exact IG. }
+  { intros y Hy. rewrite HhL. apply (st_hnonneg _ HSG). apply (proj2 HAG y Hy). }
+  { intros y Hy. rewrite HheapL in *. rewrite HhL. apply (li_heap _ _ _ _ LG), Hy. }
+  (* the recovery *)
+  unfold recoverPanic in EP.
+  set (s2' := upd s2 x (set recomputedAt (fun _ => 0))) in *.
+  destruct (heapAddIfNotPresent s2' x) as [s3'| |] eqn:E3; simpl in EP; try discriminate. injection EP as <-.
+  assert (Hx2 : has s2 x).
+  { apply (oh_has _ _ OR). rewrite EsL. apply has_emit, has_upd, Hxh. }
+  assert (Hnd2' : forall n, nd s2' n = if decide (n = x) then nd sG x <| recomputedAt := 0 |> else nd sG n).
+  { intros n. unfold s2'. rewrite nd_upd by exact Hx2. destruct (decide (n = x)) as [->|Hn].
+    - rewrite (oh_nd _ _ OR), HndL, decide_True by reflexivity. apply node_set_rec2.
+    - rewrite (oh_nd _ _ OR), HndL, decide_False by exact Hn. reflexivity. }
+  assert (I2' : HeapSpec.inv (heap s2')) by exact IR.
+  destruct (heapAddIfNotPresent_spec0 s2' x s3' I2') as (O3 & I3 & M3 & Hin3); [|exact E3|].
+  { rewrite Hnd2', decide_True by reflexivity. apply (st_hnonneg _ HSG x Hgx). }
+  assert (Hx2q : inHeap s2' x = false).
+  { apply inHeap_false_iff0; [exact I2'|]. change (heap s2') with (heap s2). rewrite MR, HheapL. tauto. }
+  (* the end of the pass *)
+  assert (Hk3 : nkind (nd s3' x) = nkind (nd sG x)).
+  { rewrite (oh_nd _ _ O3), Hnd2', decide_True by reflexivity. reflexivity. }
+  assert (Eerr : errorHandlers s3' x = emit (EvErrH x) s3').
+  { unfold errorHandlers. rewrite Hk3. destruct (nkind (nd sG x)); try discriminate Hmk; reflexivity. }
+  rewrite Eerr in EE.
+  assert (FsG : forall g : state -> list nid, True) by auto. clear FsG.
+  assert (Hsd3 : setDuring (emit (EvErrH x) s3') = [] /\ setRemoved (emit (EvErrH x) s3') = []).
+  { cbn. rewrite (oh_setDuring _ _ O3), (oh_setRemoved _ _ O3). unfold s2'. cbn.
+    rewrite (oh_setDuring _ _ OR), (oh_setRemoved _ _ OR), EsL. cbn.
+    rewrite (sf_setDuring _ _ FG), (sf_setRemoved _ _ FG). auto. }
+  destruct (stabilizeEnd_quiet _ _ s' (proj1 Hsd3) (proj2 Hsd3) EE)
+    as (En & Eh & Eb & Ex & Ek & Er & Eo & Ea & Ei & Enn & Em & Est & Ehd & Esd & Esr).
+  assert (Hnd' : forall n, nd s' n = if decide (n = x) then nd sG x <| recomputedAt := 0 |> else nd sG n).
+  { intros n. rewrite (nodes_eq_nd _ _ En n), nd_emit, (oh_nd _ _ O3). apply Hnd2'. }
+  assert (Hids' : forall y, y ∈ Heap.ids (heap s') <-> y = x \/ y ∈ Heap.ids (heap sG) \/ y ∈ always).
+  { intros y. rewrite Eh. change (heap (emit (EvErrH x) s3')) with (heap s3'). rewrite M3.
+    change (heap s2') with (heap s2). rewrite MR, HheapL. tauto. }
+  assert (I' : HeapSpec.inv (heap s')) by (rewrite Eh; exact I3).
+  (* the virtual state: [sG] with [x] back in the queue *)
+  destruct (add_ok (heap sG) x (height (nd sG x)) (st_hnonneg _ HSG x Hgx)) as [wx Ewx].
+  set (sV := sG <| heap := wx |>).
+  assert (EV : heapAdd sG x = Ok sV) by (unfold heapAdd; rewrite Ewx; reflexivity).
+  destruct (heapAdd_spec0 sG x sV IG (proj2 (inHeap_false_iff0 sG x IG) Hxq) (st_hnonneg _ HSG x Hgx) EV)
+    as (OV & IV & PV & HinV).
+  assert (LV : LInv (Heap.ids (heap s)) (EvPassStart :: log s) sV None).
+  { apply (LInv_transport _ _ sG (Some x) sV None LG); try reflexivity; try exact IV.
+    - intros q Hq. rewrite HinV. rewrite PV, elem_of_cons in Hq. destruct Hq as [->|Hq].
+      + rewrite decide_True by reflexivity. auto.
+      + destruct (decide (q = x)) as [->|]; [auto|]. apply (li_heap _ _ _ _ LG), Hq.
+    - intros y. apply eq_true_iff_eq. rewrite (inW_iff sV None y IV), (inW_iff sG (Some x) y IG), PV, elem_of_cons.
+      split; [intros [[->|?]|?]; auto; discriminate|intros [?|[= ->]]; auto].
+    - discriminate.
+    - exists []. split; [reflexivity|constructor]. }
+  set (sW := sV <| heap := heap s' |> <| stabNum := stabNum sV + 1 |>).
+  assert (VW : ValInv sW).
+  { apply (finish_ValInv _ _ s sV always sW V (sf_Struct _ _ (sframe_set_heap sG wx) HSG) LV HAG (sf_stabNum _ _ FG)); try reflexivity.
+    - intros y Hy. apply (HuG y Hy).
+    - intros y Hy. apply (inHeap_iff0 sV y IV) in Hy. rewrite PV, elem_of_cons in Hy.
+      apply (inHeap_iff0 sW y I'), Hids'. tauto.
+    - intros y Hy. apply (inHeap_iff0 sW y I'), Hids'. auto. }
+  assert (Hsfields : binds s' = binds sG /\ next s' = next sG /\ stabNum s' = stabNum sG + 1 /\ reg s' = reg sG /\
+            obs s' = obs sG /\ adj s' = adj sG /\ invq s' = invq sG /\ numNodes s' = numNodes sG /\ maxHeight s' = maxHeight sG).
+  { rewrite Eb, Ex, Ek, Er, Eo, Ea, Ei, Enn, Em. cbn.
+    rewrite (oh_binds _ _ O3), (oh_next _ _ O3), (oh_stabNum _ _ O3), (oh_reg _ _ O3), (oh_obs _ _ O3), (oh_adj _ _ O3),
+      (oh_invq _ _ O3), (oh_numNodes _ _ O3), (oh_maxHeight _ _ O3). unfold s2'. cbn.
+    rewrite (oh_binds _ _ OR), (oh_next _ _ OR), (oh_stabNum _ _ OR), (oh_reg _ _ OR), (oh_obs _ _ OR), (oh_adj _ _ OR),
+      (oh_invq _ _ OR), (oh_numNodes _ _ OR), (oh_maxHeight _ _ OR), EsL. repeat split. }
+  destruct Hsfields as (Fb & Fx & Fk & Fr & Fo & Fa & Fi & Fnn & Fm).
+  assert (Hhas' : forall n, has s' n <-> has sG n).
+  { intros n. unfold has. rewrite En. change (nodes (emit (EvErrH x) s3')) with (nodes s3'). rewrite (oh_nodes _ _ O3).
+    fold (has s2' n). unfold s2'. rewrite has_upd, (oh_has _ _ OR), EsL, has_emit. apply has_upd. }
+  assert (V' : ValInv s').
+  { apply (ValInv_reset sW x s' VW).
+    - apply (inHeap_iff0 sW x I'), Hids'. auto.
+    - exact Hmk.
+    - intros n Hn. rewrite Hnd', decide_False by exact Hn. reflexivity.
+    - rewrite Hnd', decide_True by reflexivity. reflexivity.
+    - intros n. rewrite Hhas'. reflexivity.
+    - reflexivity.
+    - exact Fb.
+    - exact Fx.
+    - exact Fk. }
+  assert (Hq'x : inHeap s' x = true) by (apply (inHeap_iff0 s' x I'), Hids'; auto).
+  assert (Hwf' : wfb s' = true).
+  { destruct (wfb_all _ Hwf) as (W1 & W2 & W3 & W4 & W5 & W6 & W7 & W8 & W9 & W10).
+    assert (Hsk : forall n, skel (nd s' n) = skel (nd s n)).
+    { intros n. transitivity (skel (nd sG n)); [|exact (sf_nd _ _ FG n)]. rewrite Hnd'.
+      destruct (decide (n = x)) as [->|]; [|reflexivity]. unfold skel. destruct (nd sG x); reflexivity. }
+    assert (Hhas : forall n, has s' n <-> has s n) by (intros n; rewrite Hhas'; apply (sf_has _ _ FG)).
+    assert (Hnx : next s' = next s) by (rewrite Fx; apply (sf_next _ _ FG)).
+    assert (Hreg' : forall y, y ∈ Heap.ids (heap s') -> inGraph (nd sG y) = true /\ Heap.hinOf (heap s') y = height (nd sG y)).
+    { intros y Hy. rewrite Eh. change (heap (emit (EvErrH x) s3')) with (heap s3'). rewrite Hin3.
+      destruct (decide (y = x)) as [->|Hne].
+      - rewrite Hx2q, Hnd2', decide_True by reflexivity. auto.
+      - apply Hids' in Hy as [?|Hy]; [contradiction|].
+        assert (Hy2 : y ∈ Heap.ids (heap s2)) by (apply MR; rewrite HheapL; exact Hy).
+        change (heap s2') with (heap s2). rewrite (HinR y Hy2), HhL. split; [|reflexivity].
+        destruct Hy as [Hy|Hy]; [apply (li_heap _ _ _ _ LG), Hy|apply (proj2 HAG y Hy)]. }
+    apply wfb_intro.
+    - rewrite (wt_edges s s' Hsk Hhas Hnx). exact W1.
+    - apply (wt_unreg s s' Hsk Hhas Hnx W2). intros n Hq. apply (inHeap_iff0 s' n I') in Hq.
+      rewrite Hnd'. destruct (decide (n = x)) as [->|]; [exact Hgx|]. apply (Hreg' n Hq).
+    - rewrite (wt_nec_clause s s' Hsk Hhas Hnx). exact W3.
+    - rewrite (wt_declared s s' Hsk Hhas Hnx). exact W4.
+    - rewrite (wt_heights s s' Hsk Hhas Hnx); [exact W5|]. rewrite Fm. apply (sf_maxHeight _ _ FG).
+    - unfold queued_ok. apply andb_true_iff. split.
+      + apply heap_inv_b_complete; [exact I'|]. rewrite Eh. change (heap (emit (EvErrH x) s3')) with (heap s3').
+        assert (C2 : cursor_ok (heap s2)).
+        { apply HcR. rewrite HheapL. apply HcG. unfold queued_ok in W6. apply andb_true_iff in W6 as [W6 _].
+          exact (heap_inv_b_cursor _ W6). }
+        unfold heapAddIfNotPresent in E3. rewrite Hx2q in E3. apply heapAdd_inv in E3 as (w3 & Ew3 & ->).
+        exact (cursor_add _ _ _ _ I2' C2 Ew3).
+      + apply forallb_intro. intros y Hy. destruct (Hreg' y Hy) as [Hg Hhi]. apply andb_true_iff. split.
+        * rewrite Hnd'. destruct (decide (y = x)) as [->|]; [exact Hgx|exact Hg].
+        * apply Z.eqb_eq. rewrite Hhi, Hnd'. destruct (decide (y = x)) as [->|]; reflexivity.
+    - rewrite (wt_counts s s' Hsk Hhas Hnx); [exact W7| | |].
+      + rewrite Fr. apply (sf_reg _ _ FG).
+      + rewrite Fo. apply (sf_obs _ _ FG).
+      + rewrite Fnn. apply (sf_numNodes _ _ FG).
+    - apply (wt_transients s s' Hsk Hhas Hnx W8); try assumption.
+      + rewrite Fa. apply (sf_adj _ _ FG).
+      + rewrite Fi. apply (sf_invq _ _ FG).
+    - rewrite (wt_observers_clause s s' Hsk Hhas Hnx); [exact W9|]. rewrite Fo. apply (sf_obs _ _ FG).
+    - unfold binds_ok. rewrite Fb, (sf_binds _ _ FG). change (binds s1) with (binds s).
+      rewrite (proj1 HBF), map_to_list_empty. reflexivity. }
+  split; [reflexivity|]. split; [exact Hwf'|]. split; [exact V'|]. split; [exact Hq'x|].
+  destruct (pass_total s' Hwf' V') as [s'' H''].
+  destruct (pass_all s' s'' Hwf' V' H'') as (A1 & A2 & A3 & A4). exists s''. auto.
+Qed.
+
 (** * D. Histories with writing plans and failing node functions *)
 
 (** the operations: those of [PassProofs.static_op], passes whose plan only writes vars, and
     passes in which one node function returns an error *)
 Definition isFailPlan (p : plan) : bool :=
-  match p with [(_, WFn, AFail FErr)] => true | _ => false end.
+  match p with [(_, WFn, AFail _)] => true | _ => false end.
 
 Definition static_op2 (o : op) : bool :=
   static_op o || match o with Stabilize p => writes_only p || isFailPlan p | _ => false end.
 
-(** the result an operation may have: no error, or, for a failing plan, that node's error *)
+(** the result an operation may have: no error, or, for a failing plan, that node's error /
+    panic *)
 Definition outcome_ok (o : op) (e : option err) : bool :=
   match e with
   | None => true
   | Some (EUser x) => match o with Stabilize [(y, WFn, AFail FErr)] => (x =? y)%nat | _ => false end
+  | Some (EPanic x) => match o with Stabilize [(y, WFn, AFail FPanic)] => (x =? y)%nat | _ => false end
   | Some _ => false
   end.
 
@@ -1538,67 +1930,88 @@ Inductive static_run2 : state -> list op -> state -> Prop :=
     static_op2 o = true -> op_ok s o = true -> step s o = Ok (s1, e) -> outcome_ok o e = true ->
     wfb s1 = true -> static_run2 s1 os s' -> static_run2 s (o :: os) s'.
 
-Lemma isFailPlan_eq p : isFailPlan p = true -> exists x, p = failPlan x.
+Lemma isFailPlan_eq p : isFailPlan p = true -> exists x, p = failPlan x \/ p = panicPlan x.
 Proof.
   unfold isFailPlan. destruct p as [|[[x w] a] [|? ?]]; try discriminate; destruct w; try discriminate;
-    destruct a as [k| |]; try discriminate; destruct k; try discriminate. intros _. exists x. reflexivity.
+    destruct a as [k| |]; try discriminate. intros _. exists x. destruct k; auto.
 Qed.
 
-Lemma outcome_err o e : outcome_ok o (Some e) = true -> exists x, o = Stabilize (failPlan x) /\ e = EUser x.
+Lemma outcome_err o e : outcome_ok o (Some e) = true ->
+  exists x, (o = Stabilize (failPlan x) /\ e = EUser x) \/ (o = Stabilize (panicPlan x) /\ e = EPanic x).
 Proof.
-  unfold outcome_ok. destruct e; try discriminate. destruct o; try discriminate.
+  unfold outcome_ok. destruct e; try discriminate; destruct o; try discriminate;
   destruct p as [|[[y w] a] [|? ?]]; try discriminate; destruct w; try discriminate;
-    destruct a as [k| |]; try discriminate; destruct k; try discriminate.
-  intros H%Nat.eqb_eq. subst. exists y. auto.
+    destruct a as [k| |]; try discriminate; destruct k; try discriminate;
+  intros H%Nat.eqb_eq; subst; exists y; auto.
+Qed.
+
+(** a pass whose loop ran to its end with an empty queue re-establishes the quiescent invariant *)
+Lemma loop_end_ValInv h0 base s sL always s2 s' :
+  wfb s = true -> ValInv s ->
+  LInv h0 base sL None -> sframe (EngineLocal.passStart s) sL -> AlwaysOK sL always ->
+  (forall y, isDone sL y = false -> nd sL y = nd s y) -> Heap.ids (heap sL) = [] ->
+  EngineLocal.requeueAlways always sL = Ok s2 -> stabilizeEnd s2 None = Ok s' -> ValInv s'.
+Proof.
+  intros Hwf V LL FL HAL HuL Hemp ER EE. destruct (wfb_transients _ Hwf) as (Hst & Hsd & Hsr & Hh).
+  destruct (pass_start_facts s Hwf V) as (HS1 & _ & _).
+  pose proof (sf_Struct _ _ FL HS1) as HSL. pose proof (proj1 (li_heap _ _ _ _ LL)) as IL.
+  destruct (requeue_spec always sL s2 IL) as (OR & IR & MR & HinR & HcR); [| |exact ER|].
+  { intros y Hy. apply (st_hnonneg _ HSL). apply (proj2 HAL y Hy). }
+  { intros y Hy. apply (li_heap _ _ _ _ LL), Hy. }
+  destruct (stabilizeEnd_quiet s2 _ s' ltac:(rewrite (oh_setDuring _ _ OR), (sf_setDuring _ _ FL); exact Hsd)
+              ltac:(rewrite (oh_setRemoved _ _ OR), (sf_setRemoved _ _ FL); exact Hsr) EE)
+    as (En & Eh & Eb & Ex & Ek & _).
+  apply (finish_ValInv _ _ s sL always s' V HSL LL HAL (sf_stabNum _ _ FL)).
+  - exact HuL.
+  - rewrite En. apply (oh_nodes _ _ OR).
+  - rewrite Eb. apply (oh_binds _ _ OR).
+  - rewrite Ex. apply (oh_next _ _ OR).
+  - rewrite Ek, (oh_stabNum _ _ OR). reflexivity.
+  - intros y Hy. apply (inHeap_iff0 sL y IL) in Hy. rewrite Hemp in Hy. inv Hy.
+  - intros y Hy. unfold inHeap. rewrite Eh. fold (inHeap s2 y). apply (inHeap_iff0 s2 y IR), MR. right. exact Hy.
+Qed.
+
+Lemma failPlan_none_ValInv s x s' :
+  wfb s = true -> ValInv s -> stabilize (failPlan x) false s = Ok (s', None) -> ValInv s'.
+Proof.
+  intros Hwf V H. destruct (wfb_transients _ Hwf) as (Hst & _).
+  destruct (stabilize_decompose _ _ _ _ _ Hst H) as (sL & at_ & always & s2 & s3 & EL & ER & EP & EE).
+  unfold passResult in EL. cbv zeta in EL. simpl in EL.
+  destruct (pass_start_facts s Hwf V) as (HS1 & L1 & HA1).
+  destruct (loop_fail _ _ x _ _ [] sL None at_ always HS1 L1 HA1 EL) as (LL & FL & HAL & HuL & HcL & He).
+  destruct He as [[_ Hemp]|[? _]]; [|discriminate]. injection EP as <-.
+  apply (loop_end_ValInv _ _ s sL always s2 s' Hwf V LL FL HAL); try assumption. intros y Hy. apply (HuL y Hy).
+Qed.
+
+Lemma panicPlan_none_ValInv s x s' :
+  wfb s = true -> ValInv s -> stabilize (panicPlan x) false s = Ok (s', None) -> ValInv s'.
+Proof.
+  intros Hwf V H. destruct (wfb_transients _ Hwf) as (Hst & _).
+  destruct (stabilize_decompose _ _ _ _ _ Hst H) as (sL & at_ & always & s2 & s3 & EL & ER & EP & EE).
+  unfold passResult in EL. cbv zeta in EL. simpl in EL.
+  destruct (pass_start_facts s Hwf V) as (HS1 & L1 & HA1).
+  destruct (loop_panic _ _ x _ _ [] sL None at_ always HS1 L1 HA1 EL)
+    as [(_ & LL & FL & HAL & HuL & HcL & Hemp)|(? & _)]; [|discriminate]. injection EP as <-.
+  apply (loop_end_ValInv _ _ s sL always s2 s' Hwf V LL FL HAL); try assumption. intros y Hy. apply (HuL y Hy).
 Qed.
 
 Theorem step2_ValInv s o s' e :
   wfb s = true -> ValInv s -> static_op2 o = true -> op_ok s o = true ->
   step s o = Ok (s', e) -> outcome_ok o e = true -> wfb s' = true -> ValInv s'.
 Proof.
-  intros Hwf V Hso Hok H Ho Hwf'. unfold static_op2 in Hso. apply orb_true_iff in Hso as [Hso|Hso].
-  - destruct e as [e|]; [|exact (step_ValInv s o s' Hwf V Hso Hok H Hwf')].
-    (* an error result is only allowed for a failing plan *)
-    destruct (outcome_err _ _ Ho) as (y & -> & ->). apply (pass_fail_retry s y s' _ Hwf V H).
+  intros Hwf V Hso Hok H Ho Hwf'.
+  destruct e as [e|].
+  { (* an error result is only allowed for a failing plan *)
+    destruct (outcome_err _ _ Ho) as (y & [[-> ->]|[-> ->]]).
+    - apply (pass_fail_retry s y s' _ Hwf V H).
+    - apply (pass_panic_retry s y s' _ Hwf V H). }
+  unfold static_op2 in Hso. apply orb_true_iff in Hso as [Hso|Hso].
+  - exact (step_ValInv s o s' Hwf V Hso Hok H Hwf').
   - destruct o; try discriminate Hso. apply orb_true_iff in Hso as [Hw|Hf].
-    + destruct e as [e|].
-      * destruct (outcome_err _ _ Ho) as (y & [= ->] & ->). apply (pass_fail_retry s y s' _ Hwf V H).
-      * exact (step_writes_ValInv s p s' Hwf V Hw Hok H).
-    + destruct (isFailPlan_eq p Hf) as [x ->]. destruct e as [e|].
-      * apply (pass_fail_retry s x s' e Hwf V H).
-      * (* the failing function was not reached: a plan without writes *)
-        assert (Hw : writes_only (failPlan x) = false) by reflexivity.
-        (* the pass ran as the plan-free one up to its end *)
-        destruct (wfb_transients _ Hwf) as (Hst & Hsd & Hsr & Hh).
-        pose proof (vi_bf _ V) as HBF. pose proof (wfb_Struct s Hwf HBF) as HS.
-        cbn [step] in H.
-        destruct (stabilize_decompose _ _ _ _ _ Hst H) as (sL & at_ & always & s2 & s3 & EL & ER & EP & EE).
-        unfold passResult in EL. cbv zeta in EL. simpl in EL.
-        set (s1 := EngineLocal.passStart s) in *.
-        assert (HS1 : Struct s1) by (destruct HS; constructor; assumption).
-        pose proof (LInv_start s Hwf V) as L1. change (PassProofs.passStart s) with s1 in L1.
-        assert (HA1 : AlwaysOK s1 []).
-        { split; [|intros y Hy; inv Hy]. intros y _ Hd. exfalso.
-          pose proof (stamps_node_true _ _ (vi_stamps _ V y)). unfold isDone in Hd. apply Z.eqb_eq in Hd.
-          change (recomputedAt (nd s y) = stabNum s) in Hd. lia. }
-        destruct (loop_fail _ _ x _ s1 [] sL None at_ always HS1 L1 HA1 EL) as (LL & FL & HAL & HuL & HcL & He).
-        destruct He as [[_ Hemp]|[? _]]; [|discriminate].
-        injection EP as <-.
-        pose proof (sf_Struct _ _ FL HS1) as HSL. pose proof (proj1 (li_heap _ _ _ _ LL)) as IL.
-        destruct (requeue_spec always sL s2 IL) as (OR & IR & MR & HinR & HcR); [| |exact ER|].
-        { intros y Hy. apply (st_hnonneg _ HSL). apply (proj2 HAL y Hy). }
-        { intros y Hy. apply (li_heap _ _ _ _ LL), Hy. }
-        destruct (stabilizeEnd_quiet s2 _ s' ltac:(rewrite (oh_setDuring _ _ OR), (sf_setDuring _ _ FL); exact Hsd)
-                    ltac:(rewrite (oh_setRemoved _ _ OR), (sf_setRemoved _ _ FL); exact Hsr) EE)
-          as (En & Eh & Eb & Ex & Ek & _).
-        apply (finish_ValInv _ _ s sL always s' V HSL LL HAL (sf_stabNum _ _ FL)).
-        -- intros y Hy. apply (HuL y Hy).
-        -- rewrite En. apply (oh_nodes _ _ OR).
-        -- rewrite Eb. apply (oh_binds _ _ OR).
-        -- rewrite Ex. apply (oh_next _ _ OR).
-        -- rewrite Ek, (oh_stabNum _ _ OR). reflexivity.
-        -- intros y Hy. apply (inHeap_iff0 sL y IL) in Hy. rewrite Hemp in Hy. inv Hy.
-        -- intros y Hy. unfold inHeap. rewrite Eh. fold (inHeap s2 y). apply (inHeap_iff0 s2 y IR), MR. right. exact Hy.
+    + exact (step_writes_ValInv s p s' Hwf V Hw Hok H).
+    + destruct (isFailPlan_eq p Hf) as [x [-> | ->]].
+      * exact (failPlan_none_ValInv s x s' Hwf V H).
+      * exact (panicPlan_none_ValInv s x s' Hwf V H).
 Qed.
 
 Lemma static_run2_inv s os s' :
@@ -1667,5 +2080,28 @@ Proof.
   assert (H : match static_run2_b (init 64) ex_history2 with Some _ => true | None => false end = true)
     by (vm_compute; reflexivity).
   destruct (static_run2_b (init 64) ex_history2) as [s'|] eqn:E; [|discriminate H].
+  exists s'. apply static_run2_b_sound. exact E.
+Qed.
+
+(** example: in [ex_pre] the function of node 4 panics; and a history with a panicking pass, a
+    failing pass and a plan-free pass *)
+Definition ex_ppost : state :=
+  match stabilize (panicPlan 4) false ex_pre with Ok (s, Some _) => s | _ => init 0 end.
+Lemma ex_ppass : stabilize (panicPlan 4) false ex_pre = Ok (ex_ppost, Some (EPanic 4%nat)).
+Proof.
+  assert (H : match stabilize (panicPlan 4) false ex_pre with Ok (_, Some (EPanic 4%nat)) => true | _ => false end = true)
+    by (vm_compute; reflexivity).
+  unfold ex_ppost. destruct (stabilize (panicPlan 4) false ex_pre) as [[s [e|]]| |]; try discriminate H.
+  destruct e; try discriminate H. destruct n as [|[|[|[|[|n]]]]]; try discriminate H. reflexivity.
+Qed.
+
+Definition ex_history3 : list op :=
+  ex_ops ++ [Stabilize (panicPlan 4); Stabilize (failPlan 4)] ++ Stabilize [] :: [].
+
+Lemma ex_history3_runs : exists s', static_run2 (init 64) ex_history3 s'.
+Proof.
+  assert (H : match static_run2_b (init 64) ex_history3 with Some _ => true | None => false end = true)
+    by (vm_compute; reflexivity).
+  destruct (static_run2_b (init 64) ex_history3) as [s'|] eqn:E; [|discriminate H].
   exists s'. apply static_run2_b_sound. exact E.
 Qed.
